@@ -89,6 +89,7 @@ SPEC = {
         "annot_matches_meta_hlsl", "annot_matches_meta_msl", "static_object_entry_without_annotation",
         "descriptor_kind_count", "meta_bijective_hlsl", "meta_bijective_msl", "msl_sort_keeps_sorted",
         "excluded_declarations", "used_sound_complete_partial", "used_flag",
+        "hlsl_params_of_targets", "hlsl_annotations_total", "annot_iff_entry", "annotations_match_metadata_hlsl",
         "entry_named_and_defined", "entry_named_and_defined_needs_name_kept"]],
     "harness": "c05",
     "nontrivial": nontrivial,
